@@ -3,9 +3,10 @@
 # Rebuilds the simulator from /repo's current working tree (hooks on) and runs the check.
 # exit 0: property held on everything explored; exit 1: VIOLATION line printed; exit 2: infrastructure trouble.
 prop="$1"; tier="${2:-${VERIF_TIER:-quick}}"
-cd /verif || exit 2
-if ! out=$(/verif/bin/build.sh 2>&1); then
+V="${VERIF_DIR:-/verif}"
+cd "$V" || exit 2
+if ! out=$("$V/bin/build.sh" 2>&1); then
   echo "BUILD-FAILURE (not a verdict):"; echo "$out" | tail -40; exit 2
 fi
 ulimit -n 65536 2>/dev/null
-exec /verif/bin/simchk run --property "$prop" --tier "$tier"
+exec "$V/bin/simchk" run --property "$prop" --tier "$tier"
